@@ -5,6 +5,8 @@ import (
 	"crypto/sha256"
 	"fmt"
 	"go/types"
+	"sort"
+	"strings"
 
 	"golang.org/x/tools/go/ssa"
 )
@@ -68,8 +70,18 @@ const blobMagic = "\x00JS\x01"
 func extJSONMarshal(fr *frame, a []Value) Value {
 	p := fr.p
 	v := a[0].(Iface)
-	id := len(p.blobs) + 1
-	p.blobs = append(p.blobs, p.deepCopy(v, map[*Value]*Value{}).(Iface))
+	// canonical: structurally identical values (same shapes, same terms) marshal to the same bytes, so that
+	// code comparing marshalled forms (string(a) == string(b), hashes of documents) behaves as with real JSON
+	key := p.canonKey(v)
+	if p.blobIndex == nil {
+		p.blobIndex = map[string]int{}
+	}
+	id, seen := p.blobIndex[key]
+	if !seen {
+		id = len(p.blobs) + 1
+		p.blobIndex[key] = id
+		p.blobs = append(p.blobs, p.deepCopy(v, map[*Value]*Value{}).(Iface))
+	}
 	out := make(Slice, 8)
 	for i := 0; i < 4; i++ {
 		out[i] = fr.w.tt.BVC(8, uint64(blobMagic[i]))
@@ -231,4 +243,104 @@ func noopFn(w *Worker) *ssa.Function {
 		}
 	}
 	panic("no noop function available")
+}
+
+// canonKey renders a value graph canonically: pointers are followed (cycles cut), symbolic scalars are
+// identified by their term id, map entries are sorted by key rendering.
+func (p *Path) canonKey(v Value) string {
+	seen := map[*Value]bool{}
+	var rec func(sb *strings.Builder, v Value, d int)
+	rec = func(sb *strings.Builder, v Value, d int) {
+		if d > 40 {
+			sb.WriteString("…")
+			return
+		}
+		switch v := v.(type) {
+		case nil:
+			sb.WriteString("nil;")
+		case *Term:
+			if v.IsConst() {
+				if v.Sort.K == KFP {
+					fmt.Fprintf(sb, "f%v;", v.F)
+				} else {
+					fmt.Fprintf(sb, "%d;", v.C)
+				}
+			} else {
+				fmt.Fprintf(sb, "t%d;", v.id)
+			}
+		case Str:
+			if v.IsConc() {
+				s := v.Conc()
+				fmt.Fprintf(sb, "s%d:%s;", len(s), s)
+			} else {
+				sb.WriteString("S[")
+				for _, b := range v.B {
+					rec(sb, b, d+1)
+				}
+				sb.WriteString("]")
+			}
+		case *Value:
+			if v == nil {
+				sb.WriteString("nilp;")
+			} else if seen[v] {
+				sb.WriteString("cyc;")
+			} else {
+				seen[v] = true
+				sb.WriteString("&")
+				rec(sb, *v, d+1)
+				delete(seen, v)
+			}
+		case Struct:
+			sb.WriteString("{")
+			for _, f := range v {
+				rec(sb, f, d+1)
+			}
+			sb.WriteString("}")
+		case Array:
+			sb.WriteString("[")
+			for _, f := range v {
+				rec(sb, f, d+1)
+			}
+			sb.WriteString("]")
+		case Slice:
+			if v == nil {
+				sb.WriteString("nils;")
+			} else {
+				fmt.Fprintf(sb, "sl%d[", len(v))
+				for _, f := range v {
+					rec(sb, f, d+1)
+				}
+				sb.WriteString("]")
+			}
+		case Iface:
+			if v.T == nil {
+				sb.WriteString("nili;")
+			} else {
+				sb.WriteString("i<" + v.T.String() + ">")
+				rec(sb, v.V, d+1)
+			}
+		case *Map:
+			if v == nil {
+				sb.WriteString("nilm;")
+			} else {
+				var parts []string
+				for _, e := range v.live() {
+					var inner strings.Builder
+					rec(&inner, e.k, d+1)
+					inner.WriteString("=>")
+					rec(&inner, e.v, d+1)
+					parts = append(parts, inner.String())
+				}
+				sort.Strings(parts)
+				sb.WriteString("m{" + strings.Join(parts, ",") + "}")
+			}
+		case RType:
+			sb.WriteString("rt<" + v.T.String() + ">")
+		default:
+			fmt.Fprintf(sb, "%T:%p;", v, v)
+		}
+	}
+	var out strings.Builder
+	rec(&out, v, 0)
+	return out.String()
 }
